@@ -429,9 +429,11 @@ pub fn pbt(ctx: &Ctx, mode: PpMode) -> Frag {
         Ok(())
     });
     let mut s = st.into_inner();
-    if res.is_err() {
+    if let Err(e) = &res {
         if let Some(v) = s.failed.take() {
             s.frag.violation(v);
+        } else {
+            s.frag.notes.push(format!("proptest aborted without a recorded violation: {}", e.to_string().chars().take(500).collect::<String>()));
         }
     }
     s.frag.extra.insert("packed_pair_calls".into(), json!(s.stats.calls));
